@@ -203,6 +203,10 @@ pub trait Task {
     fn is_conn(&self) -> bool {
         false
     }
+    /// stream id the task currently works on (0 if none)
+    fn cur_sid(&self) -> u32 {
+        0
+    }
 }
 
 // ---------------------------------------------------------------------------
@@ -278,6 +282,8 @@ impl SendSide {
                     }
                 }
                 SendOp::Push { tag: ptag, hid, ops } => {
+                    // make the pushed stream's tag unique per parent
+                    let ptag = ptag * 1000 + tag;
                     if let Some(sr) = srv.as_deref_mut() {
                         let mut b = Request::builder().method("GET").uri(format!("https://sim.test/push/{}", ptag)).header("x-tag", ptag.to_string());
                         for (n, v) in hdrpool(hid) {
@@ -486,18 +492,22 @@ pub struct BodyReader {
     pub waitq: Option<usize>,
     pub trailers_polled_first: bool,
     pub finished_q: Option<usize>,
+    pub data_done: bool,
 }
 
 impl BodyReader {
     pub fn new(name: String, ep: usize, tag: u32, rs: RecvStream, pol: ReadPol) -> BodyReader {
         let sid = rs.stream_id().as_u32();
-        BodyReader { name, ep, tag, sid, rs: Some(rs), pol, off: 0, held: 0, chunks: 0, phase: 0, blocked: None, waitq: None, trailers_polled_first: false, finished_q: None }
+        BodyReader { name, ep, tag, sid, rs: Some(rs), pol, off: 0, held: 0, chunks: 0, phase: 0, blocked: None, waitq: None, trailers_polled_first: false, finished_q: None, data_done: false }
     }
 }
 
 impl Task for BodyReader {
     fn name(&self) -> &str {
         &self.name
+    }
+    fn cur_sid(&self) -> u32 {
+        self.sid
     }
     fn ep(&self) -> usize {
         self.ep
@@ -577,6 +587,7 @@ impl Task for BodyReader {
                     Poll::Ready(None) => {
                         let es = rs.is_end_stream();
                         api.ev("poll_data", sid, tag, "none", json!({"eos": es}));
+                        self.data_done = true;
                         self.phase = 1;
                     }
                     Poll::Ready(Some(Err(e))) => {
@@ -605,9 +616,16 @@ impl Task for BodyReader {
                     }
                 }
             } else {
+                let early = self.pol.trailers_first && self.trailers_polled_first && !self.data_done;
                 match rs.poll_trailers(cx) {
                     Poll::Pending => {
                         api.ev("poll_trailers", sid, tag, "pending", json!({}));
+                        if early {
+                            // trailers polled before the data was consumed: go on reading the data
+                            // (the waker is registered by both calls)
+                            self.phase = 0;
+                            continue;
+                        }
                         self.blocked = Some("poll_trailers".into());
                         return TP::Pending;
                     }
@@ -623,9 +641,6 @@ impl Task for BodyReader {
                         api.ev("poll_trailers", sid, tag, "err", json!({"e": err_json(&e)}));
                         self.phase = 2;
                     }
-                }
-                if self.trailers_polled_first && self.pol.trailers_first && self.phase == 2 {
-                    // trailers polled before data: whatever came back, we are done with this handle
                 }
             }
         }
@@ -813,7 +828,6 @@ impl Task for ClientConn {
                 CState::Running(c) => match Pin::new(c).poll(cx) {
                     Poll::Pending => {
                         self.blocked = Some("conn".into());
-                        api.ev("conn_poll", 0, 0, "pending", json!({}));
                         return TP::Pending;
                     }
                     Poll::Ready(Ok(())) => {
@@ -859,6 +873,9 @@ impl ClientReq {
 impl Task for ClientReq {
     fn name(&self) -> &str {
         &self.name
+    }
+    fn cur_sid(&self) -> u32 {
+        self.side.sid_cached()
     }
     fn ep(&self) -> usize {
         0
@@ -1002,6 +1019,9 @@ impl Task for ClientResp {
     fn name(&self) -> &str {
         &self.name
     }
+    fn cur_sid(&self) -> u32 {
+        self.sid
+    }
     fn ep(&self) -> usize {
         0
     }
@@ -1122,6 +1142,9 @@ pub struct PushPoller {
 impl Task for PushPoller {
     fn name(&self) -> &str {
         &self.name
+    }
+    fn cur_sid(&self) -> u32 {
+        self.sid
     }
     fn ep(&self) -> usize {
         0
@@ -1268,7 +1291,6 @@ impl Task for ServerConn {
                         match c.poll_closed(cx) {
                             Poll::Pending => {
                                 self.blocked = Some("conn".into());
-                                api.ev("conn_poll", 0, 0, "pending", json!({}));
                                 return TP::Pending;
                             }
                             Poll::Ready(Ok(())) => {
@@ -1288,7 +1310,6 @@ impl Task for ServerConn {
                     match c.poll_accept(cx) {
                         Poll::Pending => {
                             self.blocked = Some("conn".into());
-                            api.ev("conn_poll", 0, 0, "pending", json!({}));
                             return TP::Pending;
                         }
                         Poll::Ready(None) => {
@@ -1337,6 +1358,9 @@ pub struct SrvWriter {
 impl Task for SrvWriter {
     fn name(&self) -> &str {
         &self.name
+    }
+    fn cur_sid(&self) -> u32 {
+        self.resp.as_ref().map(|r| r.stream_id().as_u32()).unwrap_or(self.side.sid_cached())
     }
     fn ep(&self) -> usize {
         1
@@ -1409,6 +1433,9 @@ pub struct PushWriter {
 impl Task for PushWriter {
     fn name(&self) -> &str {
         &self.name
+    }
+    fn cur_sid(&self) -> u32 {
+        self.pushed.as_ref().map(|r| r.stream_id().as_u32()).unwrap_or(self.side.sid_cached())
     }
     fn ep(&self) -> usize {
         1
